@@ -87,8 +87,9 @@ claim('C08',
 claim('C09',
       'Coq theorems, unconditional: the tables/rules/reduce shapes read from parser.rs and parser.kiki on every run pass the validator by '
       'vm_compute and equal the hand-written grammar of record; hence for every token sequence the front end never panics, accepts exactly '
-      'the sentences of the published grammar, and a rejection is not too late. Exact error spans and "not too early" are decided per input '
-      'by an Earley oracle over an independently written grammar and the lexical specification.',
+      'the sentences of the published grammar, and a rejection is not too late; for every source text a syntax error carries exactly the byte span '
+      'and text of the first token after which no valid file can continue, or the empty span at the end of the source (Lex/Spans.v + ErrPos). '
+      '"Not too early" is decided per input by an Earley oracle over an independently written grammar and the lexical specification.',
       COMMON_NOTE + 'cst_to_ast is modelled together with the reduce functions (Front/Cst2Ast.v) and compared.',
       'Translation (tables regenerated from parser.rs) + Coq validator by vm_compute + Tier A theorems', 'DESIGN.md §5 C09')
 claim('C10',
